@@ -754,6 +754,7 @@ func isNilConst(v ssa.Value) bool {
 type PathQ struct {
 	BlockInstr func(ssa.Instruction) bool                // paths may not pass through these instructions
 	BlockEdge  func(from *ssa.BasicBlock, succ int) bool // paths may not take these edges
+	MustEdge   *ifEdge                                   // the goal counts, and the two restrictions above apply, only once the path has taken this edge
 }
 
 func isExit(in ssa.Instruction) bool {
@@ -810,10 +811,15 @@ func canReachFrom(f *ssa.Function, from ssa.Instruction, viaBlock *ssa.BasicBloc
 		facts := w.facts
 		for i := w.i; i < len(w.b.Instrs); i++ {
 			in := w.b.Instrs[i]
-			if goal(in) {
-				return in, true
+			if q.MustEdge == nil || facts.passed {
+				ci.cur = &facts
+				hit := goal(in)
+				ci.cur = nil
+				if hit {
+					return in, true
+				}
 			}
-			if q.BlockInstr != nil && q.BlockInstr(in) {
+			if q.BlockInstr != nil && (q.MustEdge == nil || facts.passed) && q.BlockInstr(in) {
 				blocked = true
 				break
 			}
@@ -832,7 +838,9 @@ func canReachFrom(f *ssa.Function, from ssa.Instruction, viaBlock *ssa.BasicBloc
 			mem, isMem = ci.members[w.b]
 			if len(ci.tphis) > 0 {
 				if iff := blockIf(w.b); iff != nil {
+					ci.at = w.b
 					decidedVal, decided = ci.evalCond(iff.Cond, &facts, 0)
+					ci.at = nil
 				}
 			}
 		}
@@ -840,13 +848,16 @@ func canReachFrom(f *ssa.Function, from ssa.Instruction, viaBlock *ssa.BasicBloc
 			if edgeInfeasible(w.b, k) {
 				continue
 			}
-			if q.BlockEdge != nil && q.BlockEdge(w.b, k) {
+			if q.BlockEdge != nil && (q.MustEdge == nil || facts.passed) && q.BlockEdge(w.b, k) {
 				continue
 			}
 			if decided && len(w.b.Succs) == 2 && (k == 0) != decidedVal {
 				continue // the constants that reached this test along the path exclude this edge
 			}
 			nf := facts
+			if q.MustEdge != nil && q.MustEdge.B == w.b && q.MustEdge.K == k {
+				nf.passed = true
+			}
 			if isMem && len(w.b.Succs) == 2 {
 				val := (k == 0) == mem.pol // truth of the class condition on this edge
 				switch corrGet(facts.bits, mem.class) {
@@ -906,6 +917,30 @@ func ReachableFromBlock(f *ssa.Function, blk *ssa.BasicBlock, q PathQ) map[ssa.I
 	out := map[ssa.Instruction]bool{}
 	if len(blk.Instrs) == 0 {
 		return out
+	}
+	// entered through one edge only: follow whole paths from the function's entry that take this edge, so that what the
+	// path established before the edge (conditions tested, constants assigned to result variables) is known after it
+	if len(blk.Preds) == 1 && q.MustEdge == nil && blk != f.Blocks[0] {
+		p := blk.Preds[0]
+		k, n := -1, 0
+		for i, s := range p.Succs {
+			if s == blk {
+				k = i
+				n++
+			}
+		}
+		if n == 1 {
+			q2 := q
+			q2.MustEdge = &ifEdge{p, k}
+			canReachFrom(f, nil, nil, -1, func(in ssa.Instruction) bool {
+				if q.BlockInstr != nil && q.BlockInstr(in) {
+					return false
+				}
+				out[in] = true
+				return false
+			}, q2)
+			return out
+		}
 	}
 	first := blk.Instrs[0]
 	if q.BlockInstr != nil && q.BlockInstr(first) {
